@@ -87,7 +87,8 @@ def gen_history(rng, nops, names, mix, safe_text):
             ops.append('remove %s' % hn(nmo))
         elif k == 'walk':
             n = rng.choice([0, 1, 2, 3, approx + 2, approx + 2, approx + 2, 1000])
-            ops.append('walk %s %d %s %d' % (hn(nm_or_all), n, rm_pattern(rng, min(n, approx + 1)), rng.randrange(2)))
+            rd = (' ' + hexs(rng.choice([x for x in names if x] or [b'k']))) if rng.random() < 0.25 else ''    # reads of one key between the steps
+            ops.append('walk %s %d %s %d%s' % (hn(nm_or_all), n, rm_pattern(rng, min(n, approx + 1)), rng.randrange(2), rd))
         elif k == 'save':
             saved = approx
             if safe_text:
